@@ -158,6 +158,12 @@ inline std::vector<Footer> footer_catalog(bool thorough) {
   add("AAA3BBB1,M1.1.0,M12.5.6", "M,edge-months,2hdst");
   add("<+0019>-0:19:32<+0119>-1:19:32,M3.5.0,M10.5.0", "M,subminute");
   add("WET0WEST,M3.5.0/1,M10.5.0", "M,zero");
+  // abbreviations that are a proper prefix / suffix of one another (the footer's type lookup must compare whole names)
+  add("<+03>-3<+0330>-3:30,M3.5.0,M10.5.0", "M,affix,std-prefix-of-dst");
+  add("<+0330>-3:30<+03>-3,M3.5.0,M10.5.0", "M,affix,dst-prefix-of-std,negative-saving");
+  add("EST5WEST4,M3.2.0,M11.1.0", "M,affix,std-suffix-of-dst");
+  add("WEST-1EST-2,M3.5.0,M10.5.0", "M,affix,dst-suffix-of-std");
+  add("LMT5LMTX,M3.2.0,M11.1.0", "M,affix,type0-name-prefix-of-dst");
   // Jn forms
   const char* jd[] = {"J1", "J59", "J60", "J365"};
   const char* jo[] = {"J200", "J250", "J300", "J150"};
@@ -534,7 +540,8 @@ inline std::vector<GenZone> family(bool thorough, GenStats* st) {
       for (int v = 1; v <= 4; ++v) {
         bool take = thorough;
         if (!take) {
-          if (fi < 20) take = (v == 2) || (k == static_cast<int>(fi % K_NKINDS));
+          if (cat[fi].tag.find("affix") != std::string::npos) take = (v == 2);  // every history kind: which types exist in the file matters
+          else if (fi < 20) take = (v == 2) || (k == static_cast<int>(fi % K_NKINDS));
           else take = (v == 2 + static_cast<int>(fi % 3) && (k == static_cast<int>(fi % K_NKINDS) || k == static_cast<int>((fi + 3) % K_NKINDS)));
         } else {
           // thorough: all kinds; versions 1 and 4 only on a third of the footers
